@@ -38,9 +38,9 @@ type M4 = [[f64; 4]; 4];
 type M3 = [[f64; 3]; 3];
 
 /// relative constant for products / applications (documented in DESIGN C09: 1e-5 * scale)
-const K_ALG: f64 = 1e-5;
+const K_ALG: f64 = 4e-6;
 /// one matrix-vector product or one constructor: a handful of roundings
-const K_ONE: f64 = 2e-6;
+const K_ONE: f64 = 1e-6;
 /// absolute floor (f32 underflow of tiny products such as cos(90 deg)^5)
 const ABS_FLOOR: f64 = 1e-30;
 
@@ -1547,7 +1547,7 @@ pub fn run(cx: &mut Ctx) {
     cx.assume("apply and apply_pt both multiply with an implicit homogeneous 1 in this version (doc comments of Mat3x3/Mat4x4::apply and the crate's `translation` tests); 'linear part on vectors' is asserted for the maps that are linear (scale, rotations, shears, basis changes), where it coincides with M(v,1)");
     cx.assume("rotation senses are those of the crate's unit tests: rotate_x(90 deg) takes +z to +y, rotate_y(90 deg) +x to +z, rotate_z(90 deg) +y to +x; orient_y(new_y, x) maps z to unit(x × new_y), orient_z(new_z, x) maps y to unit(new_z × x) (tests orientation_y_to_z / orientation_z_to_y)");
     cx.assume("inverse() documents a debug-mode panic for |det| <= f32::EPSILON: inverse/determinant products are cut to the longest prefix with cond_2(linear 3x3 part) <= 1e3 and |det| in [1e-3, 1e3] (DESIGN D-f; the separate inverse-large-scale sub-check covers well-conditioned maps whose determinant is huge or overflows — only a SMALL determinant is a documented reason to panic); translations are unrestricted (+-100 per factor) because every tolerance is componentwise");
-    cx.assume("tolerances: 1e-5 * (|F_k|…|F_0|)_ij for products, 1e-5 * (|A||A⁻¹||A||A⁻¹|)_ij for M∘M⁻¹ (first-order bound of Gauss-Jordan with partial pivoting in f32; at most 1e-5*cond^2-like), 1e-5 * permanent(|A|) for determinants, 2e-6 * |M||(v,1)| for a single matrix-vector product; angles enter the oracle as degs(d).to_rads() (unit conversion is C18's subject)");
+    cx.assume("tolerances: 4e-6 * (|F_k|…|F_0|)_ij for products, 4e-6 * (|A||A⁻¹||A||A⁻¹|)_ij for M∘M⁻¹ (first-order bound of Gauss-Jordan with partial pivoting in f32; at most 4e-6*cond^2-like), 4e-6 * permanent(|A|) for determinants, 1e-6 * |M||(v,1)| for a single matrix-vector product; angles enter the oracle as degs(d).to_rads() (unit conversion is C18's subject)");
     cx.assume("orient_y/orient_z inputs: the x hint is at least ~63 degrees away from the new axis (the documented construction normalises x × new_axis, which loses all accuracy when they are parallel); rotations sub-check uses unit inputs ('if new_y and x are unit vectors, the result is orthonormal')");
 
     let n = cx.n(200_000, 3_000_000);
